@@ -539,6 +539,41 @@ def rule_max_clique(F, R):
             if P.place(e['args'][0]) == T: uses.append(e['loc'])
     R.count('L:complement-list-readers', len(uses)); R.obligation(len(uses) >= 2, 'L readers')
     if len(uses) < 2: R.violation('max_clique_gen::main / L / constraint copies', 'L', 'the plain and the v_-prefixed constraint blocks must both be generated from the complement-edge list (found %d readers)' % len(uses))
+    # ... and each constraint names the two ends of its pair, first end first: a two-hole template fed from one pair shows .0 then .1
+    npairs = 0
+    bodies_ = [t] + [ct_ for g_, ct_ in c.ithir.items() if g_.startswith('max_clique_gen::main::{closure')]
+    tuple_comp = {}          # var -> (id of the two-component tuple pattern that binds it, component)
+    def note_tuple_pats(p_):
+        p_ = unwrap_pat(p_)
+        if p_['k'] == 'Leaf' and 'adt' not in p_ and len(p_.get('subs') or []) == 2:
+            for sp_ in p_['subs']:
+                b__ = unwrap_pat(sp_['pat'])
+                if b__['k'] == 'Binding': tuple_comp[b__['var']] = (id(p_), sp_['field'])
+        for sp_ in p_.get('subs') or []: note_tuple_pats(sp_['pat'])
+    for bt_ in bodies_:
+        for pr_ in bt_.get('params') or []:
+            if 'pat' in pr_: note_tuple_pats(pr_['pat'])
+        for (_it, pt_, _b) in for_loops(bt_['body']): note_tuple_pats(pt_)
+    for bt_ in bodies_:
+        for b_ in walk(bt_['body']):
+            if b_['k'] == 'Block' and 'format_args' in str(b_.get('exp')):
+                for st_ in b_['stmts']:
+                    if st_['k'] == 'Let' and st_.get('init') is not None and strip(st_['init'])['k'] == 'Tuple' and len(strip(st_['init'])['fields']) == 2:
+                        f0, f1 = [strip(x) for x in strip(st_['init'])['fields']]
+                        def proj(x):
+                            while x['k'] == 'Call' and x['args'] and (callee_name(x) or '').split('::')[-1] in ('clone', 'to_string', 'as_str', 'deref', 'as_ref'): x = strip(x['args'][0])
+                            return (root_var(x['lhs']), x['field']) if x['k'] == 'Field' and isinstance(x.get('field'), int) else None
+                        p0, p1 = proj(f0), proj(f1)
+                        if p0 is None and p1 is None:
+                            # the two ends named by a tuple pattern `|(a, b)|` / `for (a, b) in ..`
+                            r0, r1 = root_var(f0), root_var(f1)
+                            if r0 in tuple_comp and r1 in tuple_comp and tuple_comp[r0][0] == tuple_comp[r1][0]: p0, p1 = tuple_comp[r0], tuple_comp[r1]
+                        if p0 is not None and p1 is not None and p0[0] is not None and p0[0] == p1[0]:
+                            npairs += 1
+                            okp = (p0[1], p1[1]) == (0, 1)
+                            R.obligation(okp, 'L pair projection %s' % b_.get('loc'))
+                            if not okp: R.violation('max_clique_gen::main / L / ends of a pair', 'L', 'a constraint must name the first and the second end of its pair, in that order; this one shows components %d and %d' % (p0[1], p1[1]), b_.get('loc'))
+    R.count('L:pair-projections', npairs)
     # every endpoint of every record is a vertex: the vertex collection receives both fields of each record
     Xp = [k for k, v in roles.items() if v == 'vertices'][0]
     ins = [e for e in walk(t['body']) if e['k'] == 'Call' and (callee_name(e) or '').split('::')[-1] == 'insert' and P.place(e['args'][0]) == Xp]
